@@ -23,6 +23,8 @@ SHOTS = {
     # every segment ends at a finite distance and the ranges end inside each of them and beyond the last (anything that prepares the winds from
     # the requested range shows up)
     'finitewinds': {'zero': 0.1, 'wind': [[10, 90, 40], [12, 180, 90], [8, 270, 180]], '_ranges': (100.0, 200.0, 412.5, 700.0), '_steps': ('R', 10.0, 50.0, 100.0)},
+    # recording steps far below one integration step (0.25 ft): several rows have to be produced from one step
+    'finestep': {'zero': 0.2, 'wind': 'cross', '_ranges': (10.0, 20.0, 40.0), '_steps': ('R', 0.05, 0.1, 5.0), '_tsteps': (0.0,)},
     'transonic': {'zero': 0.5, 'twist': 12.0, 'dm': 'G1', 'bc': 0.1, 'mv': 1250.0, 'look': 10.0},
     'arc30': {'zero': 30.0, 'mv': 1500.0},
     'tail': {'wind': 'tail', 'zero': 0.2},
@@ -183,7 +185,7 @@ PARTS = {'pairs': pairs, 'filter': filt}
 
 
 def plan(tier):
-    shots = list(SHOTS) if tier == 'thorough' else ['multiwind', 'finitewinds', 'transonic', 'tail', 'tailslow', 'tailarc', 'flat_long', 'down_long']
+    shots = list(SHOTS) if tier == 'thorough' else ['multiwind', 'finitewinds', 'finestep', 'transonic', 'tail', 'tailslow', 'tailarc', 'flat_long', 'down_long']
     pr = [[s, a, b] for s in shots for a in range(NBLOCKS) for b in range(a, NBLOCKS)]
     depth = 6 if tier == 'quick' else 8
     fl = [[list(p), depth] for p in itertools.product((0.75, 1.0, 1.25), repeat=3)]
